@@ -46,7 +46,11 @@ _WORK = os.path.join(os.environ.get('VERIF_OUT') or VERIF, 'work', 'C12',
                      str(os.getpid()))
 _BAD_DOCS = ['', 'a: [1, 2', '- x\n- y\n', 'a: 1\na: 2\n', '{a: 1}',
              '? [a]\n: 1\n', '&a [*a]', 'x: !!int abc', '%YAML 1.1\n---\n1',
-             'é: ü\n', '"\\ud83d\\ude42"', 'a: b: c']
+             'é: ü\n', '"\\ud83d\\ude42"', 'a: b: c',
+             # a character YAML does not allow, early and beyond the
+             # reader's first chunks (a str is checked as a whole, a stream
+             # chunk by chunk while parsing)
+             'a: "x\x07"\n', 'a: "' + 'x' * 9000 + '\x07"\nb: 1\n']
 
 
 def _dirs():
@@ -66,61 +70,90 @@ def _sinks(mi, f, x, opt):
     load, dumps, dumps_json, dump, dump_json = values.functions(mi)
     indent, ascii_ = pick([(None, True), (2, False), (0, True)], opt)
     d = _dirs()
+
+    class Skip(Exception):
+        pass
+
+    def attempt(fn):
+        """('text', what was produced) or ('refused', exception class); a
+        value the string variant refuses must be refused by every sink
+        variant too."""
+        try:
+            return ('text', fn())
+        except UnicodeEncodeError:
+            raise Skip()    # the (file system) encoding cannot hold the text
+        except Exception as e:      # noqa
+            return ('refused', type(e).__name__)
+
+    def to_file(fn, path):
+        def run():
+            fn(path)
+            return _read(str(path))
+        return attempt(run)
+
+    def to_stream(fn):
+        def run():
+            s = io.StringIO()
+            fn(s)
+            return s.getvalue()
+        return attempt(run)
+
     try:
-        want_y = dumps(v)
-    except (UnicodeEncodeError, yaml.YAMLError):
+        want_y = attempt(lambda: dumps(v))
+    except Skip:
         return None
     try:
-        want_j = dumps_json(v, indent=indent, ensure_ascii=ascii_)
-    except (RuntimeError, UnicodeEncodeError):
+        want_j = attempt(lambda: dumps_json(v, indent=indent,
+                                            ensure_ascii=ascii_))
+    except Skip:
         want_j = None
     got = {}
     try:
-        p1 = os.path.join(d, 'a.yaml')
-        dump(v, p1)
-        got['yaml str path'] = _read(p1)
-        p2 = pathlib.Path(d) / 'b.yaml'
-        dump(v, p2)
-        got['yaml Path'] = _read(str(p2))
-        s = io.StringIO()
-        dump(v, s)
-        got['yaml stream'] = s.getvalue()
+        got['yaml str path'] = to_file(lambda p: dump(v, p),
+                                       os.path.join(d, 'a.yaml'))
+        got['yaml Path'] = to_file(lambda p: dump(v, p),
+                                   pathlib.Path(d) / 'b.yaml')
+        got['yaml stream'] = to_stream(lambda s: dump(v, s))
         if want_j is not None:
-            p3 = os.path.join(d, 'a.json')
-            dump_json(v, p3, indent=indent, ensure_ascii=ascii_)
-            got['json str path'] = _read(p3)
-            p4 = pathlib.Path(d) / 'b.json'
-            dump_json(v, p4, indent, ascii_)
-            got['json Path'] = _read(str(p4))
-            s = io.StringIO()
-            dump_json(v, s, indent=indent, ensure_ascii=ascii_)
-            got['json stream'] = s.getvalue()
+            got['json str path'] = to_file(
+                lambda p: dump_json(v, p, indent=indent, ensure_ascii=ascii_),
+                os.path.join(d, 'a.json'))
+            got['json Path'] = to_file(
+                lambda p: dump_json(v, p, indent, ascii_),
+                pathlib.Path(d) / 'b.json')
+            got['json stream'] = to_stream(
+                lambda s: dump_json(v, s, indent=indent, ensure_ascii=ascii_))
         # open text FILES with their own encodings (a stream that has an
         # `encoding` attribute); compared only when the text fits it
         for enc in ('latin-1', 'utf-16'):
             for kind, want in (('yaml', want_y), ('json', want_j)):
-                if want is None:
+                if want is None or want[0] != 'text':
                     continue
                 try:
-                    want.encode(enc)
+                    want[1].encode(enc)
                 except UnicodeEncodeError:
                     continue
                 p5 = os.path.join(d, 'c.' + kind)
-                with open(p5, 'w', encoding=enc, newline='') as fh:
-                    if kind == 'yaml':
-                        dump(v, fh)
-                    else:
-                        dump_json(v, fh, indent=indent, ensure_ascii=ascii_)
-                with open(p5, 'r', encoding=enc, newline='') as fh:
-                    got['%s open file (%s)' % (kind, enc)] = fh.read()
-    except UnicodeEncodeError:
+
+                def run(kind=kind, enc=enc, p5=p5):
+                    with open(p5, 'w', encoding=enc, newline='') as fh:
+                        if kind == 'yaml':
+                            dump(v, fh)
+                        else:
+                            dump_json(v, fh, indent=indent,
+                                      ensure_ascii=ascii_)
+                    with open(p5, 'r', encoding=enc, newline='') as fh:
+                        return fh.read()
+                got['%s open file (%s)' % (kind, enc)] = attempt(run)
+    except (Skip, UnicodeEncodeError):
         return None         # the file system encoding cannot hold the text
     finally:
         shutil.rmtree(d, ignore_errors=True)
     bad = {k: t for k, t in got.items()
            if t != (want_y if k.startswith('yaml') else want_j)}
     if not SYMBOLIC:
-        note(model=values.MODELS[mi][0], value=plain(v), dumps=want_y,
+        note(model=(values.MODELS + values.DUMP_ONLY_MODELS)[mi][0],
+             value=plain(v), dumps=want_y,
              dumps_json=want_j, differing=bad)
     return not bad
 
@@ -192,7 +225,7 @@ def _sources(mi, f, x, bad, enc):
 
 def sources(f: int, x: int, bad: int, enc: int) -> bool:
     """
-    pre: 0 <= f < 10 and 0 <= x < 70 and -1 <= bad < 12 and 0 <= enc < 3
+    pre: 0 <= f < 10 and 0 <= x < 70 and -1 <= bad < 14 and 0 <= enc < 3
     post: __return__
     """
     if enc != 0 and x > 2:
@@ -204,18 +237,19 @@ def sources(f: int, x: int, bad: int, enc: int) -> bool:
 
 
 CONDITIONS = [
-    {'fn': 'sinks', 'slices': list(range(len(values.MODELS))), 'quick': 240,
+    {'fn': 'sinks', 'slices': list(range(len(values.MODELS) + len(
+        values.DUMP_ONLY_MODELS))), 'quick': 240,
      'thorough': 600,
      'bound': 'one slice per class model: every alternative of every factor '
               '(x 3 option sets for the first six); YAML and JSON; str path, Path, text stream '
               '(StringIO and open files encoded as Latin-1 and '
-              'UTF-16 where the text fits) vs. the dumps variant'},
+              'UTF-16 where the text fits) vs. the dumps variant; a value the dumps variant refuses (no representer, aliases in JSON) is refused by every sink variant'},
     {'fn': 'sinks_reach', 'slices': [0], 'quick': 60, 'thorough': 60,
      'expect': 'REFUTED', 'bound': 'reachability twin'},
     {'fn': 'sources', 'slices': list(range(len(values.MODELS))),
      'quick': 240, 'thorough': 600,
      'bound': 'one slice per class model: the dumped text of every '
-              'alternative, and 12 invalid/odd documents (x 3 encodings of '
+              'alternative, and 14 invalid/odd documents (x 3 encodings of '
               'the binary stream for the first three); str, Path, StringIO, BytesIO, open text '
               'file, open binary file'},
 ]
